@@ -4,3 +4,9 @@ from .kernels import run_c08
 
 def run(ctx):
     run_c08(ctx)
+
+    # the formulas above are written in the scalar type's own operations; for the f64 instantiation those are decided by C20-a — restated
+    # here for exactly the operations this code calls: a `powf` / `sqrt` / `cos` of `impl MomTropFloat for f64` that is not std's breaks
+    # this property with every anchored line untouched
+    from .restate import restate_f64_primitives
+    restate_f64_primitives(ctx, [lambda: ctx.roles.decompose()], "the decomposition")
